@@ -56,6 +56,41 @@ func (p *Paragraph) Set(key, value string) {
 	p.Values[key] = value
 }
 
+// Field names are not case-sensitive (Policy 5.1): the value of the field
+// spelled `key`, or, where there is none, of the first field whose name
+// differs from it in the case of ASCII letters only.
+func (p Paragraph) lookupFold(key string) (string, bool) {
+	if value, ok := p.Values[key]; ok {
+		return value, true
+	}
+	for _, name := range p.Order {
+		if equalFoldASCII(name, key) {
+			value, ok := p.Values[name]
+			return value, ok
+		}
+	}
+	return "", false
+}
+
+func equalFoldASCII(a, b string) bool {
+	if len(a) != len(b) {
+		return false
+	}
+	for i := 0; i < len(a); i++ {
+		x, y := a[i], b[i]
+		if 'A' <= x && x <= 'Z' {
+			x += 'a' - 'A'
+		}
+		if 'A' <= y && y <= 'Z' {
+			y += 'a' - 'A'
+		}
+		if x != y {
+			return false
+		}
+	}
+	return true
+}
+
 func (p *Paragraph) WriteTo(out io.Writer) error {
 	for _, key := range p.Order {
 		value := p.Values[key]
